@@ -114,6 +114,23 @@ def main(argv=None):
         with open(p) as f:
             ev = json.load(f)
         ev["coverage"]["selftest"] = st
+        # the canonicaliser's side conditions: each rewrite next to a near miss on which it must not fire (sa/canon_selfcheck.py)
+        try:
+            from . import canon_selfcheck
+            import io
+            import contextlib
+            buf = io.StringIO()
+            with contextlib.redirect_stdout(buf):
+                rc = canon_selfcheck.main()
+            ev["coverage"]["canonicaliser_side_conditions"] = {"cases": len(canon_selfcheck.CASES), "failed": [l for l in buf.getvalue().splitlines() if l.startswith(("FAIL", "ERROR"))]}
+            # the tables the self-check filled describe its snippets, not /repo: nothing after this point reads them
+            if rc != 0:
+                print("ANALYSIS-ERROR property=%s rule=CANON reason=the canonicaliser applied a rewrite where its side condition fails (python -m sa.canon_selfcheck)" % pid)
+                with open(p, "w") as f:
+                    json.dump(ev, f, indent=1)
+                return 2
+        except Exception as e:   # noqa
+            ev["coverage"]["canonicaliser_side_conditions"] = {"error": str(e)}
         try:
             from .sweep import sample_for_property
             ms = sample_for_property(pid, seed)
